@@ -92,7 +92,8 @@ void run_case(ByteSource& s, CaseInfo& ci) {
   std::vector<double> h = gen_H(s, d, &hc);
   unsigned sub = s.choose(4);
   std::vector<double> a = gen_dense(s, d);
-  SU_vector H = make_vec(h, d), A = make_vec(a, d);
+  VecHolder hH, hA; SU_vector& H = hH.make(h, d, s.tail_choose(8)); SU_vector& A = hA.make(a, d, s.tail_choose(8));  // storage kinds must not matter
+  ci.label(std::string("storage-H-") + hH.kind);
   Mat MH = toM(h, d), MA = toM(a, d);
   // level differences do not involve the identity component: read them off the traceless part
   std::vector<ld> E(d); { std::vector<double> h0 = h; h0[0] = 0; Mat M0 = toM(h0, d); for (int i = 0; i < d; i++) E[i] = M0.a[i][i].real(); }
